@@ -629,6 +629,18 @@ def opBipDeriveFrom (args0 : List String) : String :=
            toHex fin.marshal ++ " | " ++ extKeyFields fin.neuter) ++ "\t="
   | _ => "bad-args"
 
+/-- `bip_reload <A> <B>`: an object that decoded A and then B behaves like a fresh object that decoded B; the model has
+    no objects, so the expected answer only depends on whether both decode -/
+def opBipReload (args : List String) : String :=
+  match args.mapM ofHex with
+  | some [a, b] =>
+    (match unmarshal b with
+     | .error e => "err " ++ e.name
+     | .ok _ => match unmarshal a with
+       | .error e => "err " ++ e.name
+       | .ok _ => "ok") ++ "\t="
+  | _ => "bad-args"
+
 def opBipUnmarshal (args : List String) : String :=
   match args.mapM ofHex with
   | some [b] =>
@@ -713,6 +725,7 @@ def runOp (line : String) : String :=
     | "interop" => opInterop args
     | "bip_derive" => opBipDerive args
     | "bip_derive_from" => opBipDeriveFrom args
+    | "bip_reload" => opBipReload args
     | "bip_unmarshal" => opBipUnmarshal args
     | "bip_fromstring" => opBipFromString args
     | "nonce" => opNonce args
